@@ -30,6 +30,11 @@ func (w *sumW) tok(s string)   { w.sb.WriteByte(' '); w.sb.WriteString(s) }
 func (w *sumW) hex(s string)   { w.tok(vh.Hex([]byte(s))) }
 func (w *sumW) num(n int)      { w.tok(fmt.Sprint(n)) }
 func (w *sumW) flag(b bool)    { w.tok(map[bool]string{false: "0", true: "1"}[b]) }
+func (w *sumW) idx(i int) {
+	if !w.second {
+		w.num(i)
+	}
+}
 func (w *sumW) fail(err error) {
 	if w.err == nil && err != nil {
 		w.err = err
@@ -42,10 +47,16 @@ func (w *sumW) loc(d protoreflect.Descriptor) protoreflect.SourceLocation {
 	return l
 }
 
+// secondComments: the grammar model attributes comments (leading / trailing / detached)
+const secondComments = true
+
 func (w *sumW) putLoc(l protoreflect.SourceLocation) {
 	w.tok("L")
 	w.num(l.StartLine)
 	w.num(l.EndLine)
+	if w.second && !secondComments {
+		return
+	}
 	w.num(len(l.LeadingDetachedComments))
 	for _, c := range l.LeadingDetachedComments {
 		w.hex(c)
@@ -62,6 +73,10 @@ func (w *sumW) opts(d protoreflect.Descriptor) []*optionreflect.OptionDefinition
 		w.fail(err)
 		w.num(0)
 		return nil
+	}
+	if w.second {
+		w.opts2(opts)
+		return opts
 	}
 	if !optsDeterminedGo(opts) {
 		w.unspecified = true
@@ -114,6 +129,59 @@ func (w *sumW) opts(d protoreflect.Descriptor) []*optionreflect.OptionDefinition
 		w.sb.WriteString(e.text)
 	}
 	return opts
+}
+
+// opts2: options as a reader of the text sees them — printed name, location flags, the value of
+// every statement with the keys the text does not carry erased; in order of the printed name.
+func (w *sumW) opts2(opts []*optionreflect.OptionDefinition) {
+	type enc struct{ key, text string }
+	var encs []enc
+	for _, o := range opts {
+		var sb sumW
+		sl := o.SourceLocation // parseOption simplifies o in place; the location is not touched
+		name, values := protoprint.VerifStatements(o)
+		sb.tok("O")
+		sb.hex(name)
+		if sl != nil {
+			sb.flag(true)
+			sb.flag(sl.SingleLine)
+			sb.flag(sl.InLineWithParent)
+			sb.num(int(sl.StartLine))
+		} else {
+			sb.flag(false)
+			sb.flag(false)
+			sb.flag(false)
+			sb.num(0)
+		}
+		sb.num(len(values))
+		for _, v := range values {
+			treeWire(eraseKeysGo(v, true), &sb.sb)
+		}
+		encs = append(encs, enc{name, sb.sb.String()})
+	}
+	for i := 0; i < len(encs); i++ {
+		for j := i + 1; j < len(encs); j++ {
+			if encs[j].key < encs[i].key {
+				encs[i], encs[j] = encs[j], encs[i]
+			}
+		}
+	}
+	w.num(len(encs))
+	for _, e := range encs {
+		w.sb.WriteString(e.text)
+	}
+}
+
+// eraseKeysGo blanks the keys the text cannot carry: of the root and of list elements.
+func eraseKeysGo(o optionreflect.OptionField, blank bool) optionreflect.OptionField {
+	out := optionreflect.OptionField{FieldType: o.FieldType, Key: o.Key, ScalarValue: o.ScalarValue}
+	if blank {
+		out.Key = ""
+	}
+	for _, c := range o.Children {
+		out.Children = append(out.Children, eraseKeysGo(c, o.FieldType == optionreflect.FieldTypeArray))
+	}
+	return out
 }
 
 func walkGuard(o *optionreflect.OptionDefinition) (t optionreflect.OptionField, ok bool) {
@@ -186,7 +254,7 @@ func (w *sumW) field(f protoreflect.FieldDescriptor) sumItem {
 	w.tok("F")
 	w.tok("f")
 	l := w.loc(f)
-	w.num(f.Index())
+	w.idx(f.Index())
 	label, typ := "", ""
 	if f.IsMap() {
 		k, err := protoprint.VerifFieldTypeName(f.MapKey())
@@ -221,7 +289,7 @@ func (w *sumW) enumValue(v protoreflect.EnumValueDescriptor) sumItem {
 	w.tok("F")
 	w.tok("v")
 	l := w.loc(v)
-	w.num(v.Index())
+	w.idx(v.Index())
 	w.hex("")
 	w.hex("")
 	w.hex(string(v.Name()))
@@ -236,7 +304,7 @@ func (w *sumW) blockHead(kw string, typeOrder int, d protoreflect.Descriptor) su
 	w.hex(kw)
 	w.num(typeOrder)
 	l := w.loc(d)
-	w.num(d.Index())
+	w.idx(d.Index())
 	w.hex(string(d.Name()))
 	w.opts(d)
 	return sumItem{typeOrder, l.StartLine, d.Index()}
@@ -320,7 +388,7 @@ func (w *sumW) service(s protoreflect.ServiceDescriptor) sumItem {
 		m := ms.Get(i)
 		w.tok("R")
 		l := w.loc(m)
-		w.num(m.Index())
+		w.idx(m.Index())
 		w.hex(string(m.Name()))
 		in, err := protoprint.VerifContextRefName(s, m.Input())
 		w.fail(err)
@@ -343,14 +411,27 @@ func (w *sumW) service(s protoreflect.ServiceDescriptor) sumItem {
 
 // summarize encodes fd as `<gen> LOC <pkg> <nimports> imp* <nopts> OPT* <nexts> (<extendee> FIELD)* <nitems> ITEM*`.
 func summarize(fd protoreflect.FileDescriptor) (text string, unspecified bool, err error) {
+	return summarizeAs(fd, false)
+}
+
+// summarize2: the summary of a descriptor parsed from printed text, as far as a reader of the text can
+// know it (no declaration indices, options as printed).
+func summarize2(fd protoreflect.FileDescriptor) (string, error) {
+	s, _, err := summarizeAs(fd, true)
+	return strings.TrimPrefix(s, " "), err
+}
+
+func summarizeAs(fd protoreflect.FileDescriptor, second bool) (text string, unspecified bool, err error) {
 	defer func() {
 		if r := recover(); r != nil {
 			err = fmt.Errorf("summary panic: %v", r)
 		}
 	}()
-	w := &sumW{}
-	w.sb.WriteString(vh.Hex([]byte(genComment)))
-	w.putLoc(fd.SourceLocations().ByPath(nil))
+	w := &sumW{second: second}
+	if !second {
+		w.sb.WriteString(vh.Hex([]byte(genComment)))
+		w.putLoc(fd.SourceLocations().ByPath(nil))
+	}
 	w.hex(string(fd.Package()))
 	imps := fd.Imports()
 	w.num(imps.Len())
